@@ -401,7 +401,23 @@ func runR_C13(c *Ctx) {
 	rR1(c, ps...)
 	rR2(c, ps...)
 	rConstIndex(c, ps...)
-	// sort
+	sortLessRules(c)
+	// keys
+	for _, rs := range c.acceptedResids("keys") {
+		if rs.Err != nil || len(rs.Funcs) != 1 {
+			continue
+		}
+		if reportIssues(c, rs, "R-keys", "", keysIssues(rs, rs.Funcs[0])) {
+			c.Rep.pass("R-keys")
+			c.Rep.sample(map[string]interface{}{"plugin": "keys", "residual": rs.Run.Text})
+		}
+	}
+	minMaxRules(c)
+}
+
+// sortLessRules: the sort plugin's residuals (used by C13, and by C03/C04/C18 whose map handling relies on sorted keys).
+func sortLessRules(c *Ctx) {
+	sweepHealth(c, "sort")
 	for _, rs := range c.acceptedResids("sort") {
 		if rs.Err != nil || len(rs.Funcs) != 1 {
 			continue
@@ -508,16 +524,9 @@ func runR_C13(c *Ctx) {
 			c.Rep.sample(map[string]interface{}{"plugin": "sort", "path": rs.Run.shapeKey(), "residual": rs.Run.Text})
 		}
 	}
-	// keys
-	for _, rs := range c.acceptedResids("keys") {
-		if rs.Err != nil || len(rs.Funcs) != 1 {
-			continue
-		}
-		if reportIssues(c, rs, "R-keys", "", keysIssues(rs, rs.Funcs[0])) {
-			c.Rep.pass("R-keys")
-			c.Rep.sample(map[string]interface{}{"plugin": "keys", "residual": rs.Run.Text})
-		}
-	}
+}
+
+func minMaxRules(c *Ctx) {
 	// min / max
 	texts := map[string]map[string]string{"min": {}, "max": {}}
 	for _, p := range []string{"min", "max"} {
